@@ -281,14 +281,17 @@ SESS3 = [(0, 0, 9, 7), (1, 1, 6, 8), (2, 0, 12, 5)]
 def jobs(tier):
     q = tier == "quick"
     js = []
-    c = "C0.08" if q else "C0.32"
-    c2 = "C0.04" if q else "C0.16"
+    c = "C0.08" if q else "C0.16"
+    c2 = "C0.04" if q else "C0.08"
     nets = {
         "cont+cc": ([(c, 208, 0), ("CC", 240, 0)], [(1, 1)], 40.0),
         "cont+cont(2 rows)": ([(c2, 208, 0), (c, 120, 0)], [(1, 1), (1, -1)], 0.4),
         "av5+cc(mixed sign)": ([("AV5", 208, 0), ("CC", 120, 0)], [(1, 1), (-1, 1)], 50.0),
-        "three-phase": ([(c, 208, 30), ("CC", 208, -90), ("AV5", 240, 150)], [(1, 0, -1), (-1, 1, 0)], 40.0) if not q else ([(c, 208, 30), ("CC", 208, -90)], [(1, -1), (1, 1)], 40.0),
+        # greedy optimality on three stations / three phases makes z3's nonlinear core answer `unknown` (a quadratic cone per row with a
+        # universally quantified alternative rate): claimed on the two-station three-phase network only
+        "three-phase": ([(c, 208, 30), ("CC", 208, -90)], [(1, -1), (1, 1)], 40.0),
     }
+    tri3 = ([("C0.08", 208, 30), ("CC", 208, -90), ("AV5", 240, 150)], [(1, 0, -1), (-1, 1, 0)], 40.0)
     for name, (st, rows, lh) in nets.items():
         sess = SESS3 if len(st) == 3 else SESS2
         if q and len(st) == 3:
@@ -305,6 +308,10 @@ def jobs(tier):
                 continue
             js.append(Job("rr[%s,%s,inc=%s]" % (name, sort, inc), h_rr, dict(stations=st, rows=rows, sessions=sess, sort=sort, inc=inc, limit_hi=lh), functions=FUNCS, max_paths=200000, timeout=6000,
                           bounds=dict(stations=[s[0] + "@%dV/%d" % (s[1], s[2]) for s in st], constraints=rows, sessions=len(sess), sort=sort, continuous_inc=inc), cost=100 if len(st) == 3 else 20))
+    if not q:
+        for sort, inc in (("fcfs", 0.03), ("edf", 0.05)):
+            js.append(Job("rr[three-phase x3,%s,inc=%s]" % (sort, inc), h_rr, dict(stations=tri3[0], rows=tri3[1], sessions=SESS3, sort=sort, inc=inc, limit_hi=tri3[2]), functions=FUNCS, max_paths=200000, timeout=6000,
+                          bounds=dict(stations=[s_[0] for s_ in tri3[0]], constraints=tri3[1], sessions=3, sort=sort, continuous_inc=inc), cost=300))
     # a second call on the same algorithm object after other sessions used the same stations
     st, rows, lh = nets["av5+cc(mixed sign)"]
     for sort in (("fcfs",) if q else ("fcfs", "lrpt")):
